@@ -14,12 +14,15 @@
 (*          Seek) and of counterErrAdjustSeriesIterator.                   *)
 (* The step-wise state machine over the same operators is DedupMC.         *)
 (***************************************************************************)
-EXTENDS Integers, Sequences, FiniteSets
+EXTENDS Integers, Sequences, FiniteSets, SequencesExt
 
 CONSTANT InitPen      \* penalty when no delta is known yet (5000 ms in the code)
 
+(* A sample is <<t, v>> (float sample) or <<t, v, k>> with k = "h" (native histogram) or    *)
+(* "fh" (float histogram); for histograms v identifies the histogram (its count).            *)
 T(e) == e[1]
 V(e) == e[2]
+Kind(e) == IF Len(e) = 3 THEN e[3] ELSE "f"
 
 (* ======================= Part 1: property level ======================= *)
 
@@ -38,6 +41,24 @@ UnchangedIfIdentical(out, reps) == (Len(reps) >= 1 /\ AllIdentical(reps)) => out
 (* iterating from the start sees": full = stream of the reader iterating from the start.    *)
 SuffixFrom(s, x) == SelectSeq(s, LAMBDA e : T(e) >= x)
 SeekIsSuffix(full, x, got) == got = SuffixFrom(full, x)
+
+(* The same sentence for a reader that seeks in mid-stream, with the contract of              *)
+(* chunkenc.Iterator ("Seek advances to the first sample with timestamp >= t; if the current  *)
+(* sample already has this property it is a no-op"): whatever sequence of Next / Seek(x) calls *)
+(* a reader makes, it moves a cursor over the stream `full` of the reader iterating from the   *)
+(* start.  log[k] = [op |-> "next" | "seek", x, ok, s]: the k-th call, whether it found a      *)
+(* sample, and the sample (<<>> if none).  A reader stops at the first call that finds none.   *)
+StepPos(full, p, e) ==
+    IF e.op = "next" THEN (IF p >= Len(full) THEN Len(full) + 1 ELSE p + 1)
+    ELSE IF p >= 1 /\ p <= Len(full) /\ T(full[p]) >= e.x THEN p
+    ELSE LET from == IF p = 0 THEN 1 ELSE p + 1
+         IN Len(full) + 1 - Cardinality({ j \in from..Len(full) : T(full[j]) >= e.x })
+FollowsFullStream(full, log) ==
+    LET pos[k \in 0..Len(log)] == IF k = 0 THEN 0 ELSE StepPos(full, pos[k - 1], log[k])
+    IN \A k \in 1..Len(log) :
+         IF pos[k] <= Len(full) THEN log[k].ok /\ log[k].s = full[pos[k]] ELSE ~log[k].ok
+(* the samples a reader received *)
+Received(log) == LET okk == SelectSeq(log, LAMBDA e : e.ok) IN [k \in DOMAIN okk |-> okk[k].s]
 
 (* C02 "over replicas whose values never decrease, the deduplicated series never decreases" *)
 ValuesNeverDecrease(s) == \A i \in 1..(Len(s) - 1) : V(s[i]) <= V(s[i + 1])
@@ -78,18 +99,22 @@ Positioned(it) == IF it.k = "leaf" THEN it.i >= 1 /\ it.i <= Len(it.s)
 (* AtT follows useA, At follows lastIter (as in the code).  *)
 ItAtT(it) == IF it.k = "leaf" THEN T(it.s[it.i])
              ELSE IF it.useA THEN ItAtT(it.a) ELSE ItAtT(it.b)
-ItAt(it) == IF it.k = "leaf" THEN <<T(it.s[it.i]), V(it.s[it.i]) + it.adj>>
+ItAt(it) == IF it.k = "leaf"
+              THEN IF Kind(it.s[it.i]) = "f" THEN <<T(it.s[it.i]), V(it.s[it.i]) + it.adj>> ELSE it.s[it.i]
             ELSE IF it.lastA THEN ItAt(it.a) ELSE ItAt(it.b)
+(* the chunkenc.ValueType the last Next/Seek returned *)
+ItKind(it) == Kind(ItAt(it))
 
 (* adjustAtValue(last): a counter replica whose current value is below the last emitted value  *)
-(* is shifted up by the difference; dd forwards to the sides that hold a sample.              *)
+(* is shifted up by the difference; dd forwards to the sides that hold a float sample          *)
+(* (histograms are not adjusted: TODO in the code).                                           *)
 ItAdjust(it, last) ==
     IF it.k = "leaf"
       THEN IF it.ctr /\ last > V(it.s[it.i]) + it.adj
              THEN [it EXCEPT !.adj = last - V(it.s[it.i])]
              ELSE it
-      ELSE [it EXCEPT !.a = IF it.aok THEN ItAdjust(it.a, last) ELSE it.a,
-                      !.b = IF it.bok THEN ItAdjust(it.b, last) ELSE it.b]
+      ELSE [it EXCEPT !.a = IF it.aok /\ ItKind(it.a) = "f" THEN ItAdjust(it.a, last) ELSE it.a,
+                      !.b = IF it.bok /\ ItKind(it.b) = "f" THEN ItAdjust(it.b, last) ELSE it.b]
 
 (* newDedupSeriesIterator: both sides are advanced once by the constructor.  *)
 DDNew(a, b) ==
@@ -100,7 +125,8 @@ DDNew(a, b) ==
 
 (* dedupSeriesIterator.Next.  With lastT = MinInt64 the seeks are no-ops.  *)
 DDNext(it) ==
-    LET isF == IF it.useA THEN it.aok ELSE it.bok                  \* lastFloatVal(): ok
+    LET isF == IF it.useA THEN it.aok /\ ItKind(it.a) = "f"         \* lastFloatVal(): ok
+               ELSE it.bok /\ ItKind(it.b) = "f"
         lastV == IF isF THEN V(ItAt(it)) ELSE 0
         sa == IF ~it.aok THEN [it |-> it.a, ok |-> FALSE]
               ELSE IF it.has THEN ItSeek(it.a, it.lastT + 1 + it.penA)
@@ -160,5 +186,21 @@ RunNext(reps, ctr) == Drain(Build(reps, ctr))
 (* ... and with Seek(x), Next, Next, ... *)
 RunSeek(reps, ctr, x) ==
     LET r == ItSeek(Build(reps, ctr), x) IN IF r.ok THEN <<ItAt(r.it)>> \o Drain(r.it) ELSE <<>>
+
+(* ... and with an arbitrary script of calls: ops[k] = [op |-> "next" | "seek", x |-> target]; *)
+(* the reader stops at the first call that finds no sample.  Result: the log (see part 1).     *)
+RECURSIVE OpsFrom(_, _, _)
+OpsFrom(it, ops, k) ==
+    IF k > Len(ops) THEN <<>>
+    ELSE LET r == IF ops[k].op = "next" THEN ItNext(it) ELSE ItSeek(it, ops[k].x)
+             e == [op |-> ops[k].op, x |-> ops[k].x, ok |-> r.ok, s |-> IF r.ok THEN ItAt(r.it) ELSE <<>>]
+         IN <<e>> \o (IF r.ok THEN OpsFrom(r.it, ops, k + 1) ELSE <<>>)
+RunOps(reps, ctr, ops) == OpsFrom(Build(reps, ctr), ops, 1)
+
+(* The chain algorithm (deduplicationFunc = "chain": prometheus' ChainedSeriesMerge) keeps one  *)
+(* sample per distinct timestamp of any replica, in time order; which replica supplies a        *)
+(* timestamp several hold is left open ("one sample from random overlapped ones is kept").      *)
+ChainTimes(reps) ==
+    SetToSortSeq(UNION { { T(reps[r][j]) : j \in DOMAIN reps[r] } : r \in DOMAIN reps }, LAMBDA a, b : a < b)
 
 =============================================================================
